@@ -95,6 +95,12 @@ class EnvObj:
         return f"<env {self.kind} {self.state}>"
 
 
+class HostChoice:
+    """a module-level value that depends on the host the library runs on: the code must be right for each of the values"""
+    def __init__(self, values):
+        self.values = list(values)
+
+
 class ExtModule:
     """an imported stdlib module; attributes resolve to library models"""
     def __init__(self, dotted):
@@ -373,7 +379,19 @@ class Interp:
             if r[0] == "ext":
                 dotted = r[1]
                 if dotted in self.ext_models:
-                    return self.ext_models[dotted]
+                    v = self.ext_models[dotted]
+                    if isinstance(v, HostChoice):
+                        # a fact about the host (byte order ...): every admissible value is explored, once per path
+                        hc = getattr(ctx, "_hostchoices", None)
+                        if hc is None:
+                            hc = {}
+                            ctx._hostchoices = hc
+                        if dotted not in hc:
+                            hc[dotted] = v.values[ctx.fork(len(v.values))]
+                            ctx.used_models.add(f"{dotted}: any of {v.values} (host dependent)")
+                            ctx.inputs["host:" + dotted] = hc[dotted]
+                        return hc[dotted]
+                    return v
                 if dotted in EXC_BASES:
                     return ExcClass(dotted)
                 if any(k.startswith(dotted + ".") for k in self.ext_models):
@@ -1204,6 +1222,23 @@ class Interp:
             else:
                 a, b = zi(a), zi(b)
             return simp({"Lt": a < b, "LtE": a <= b, "Gt": a > b, "GtE": a >= b}[name])
+        if isinstance(a, (str, bytes, Seq)) and isinstance(b, (str, bytes, Seq)):
+            sa, sb = Seq.of(a), Seq.of(b)
+            if sa.kind == sb.kind and sa.fixed() and sb.fixed():
+                # lexicographic order of two texts / byte strings of known lengths (code point order, as Python compares)
+                ta, tb = [zi(t) for t in sa.terms()], [zi(t) for t in sb.terms()]
+                n = min(len(ta), len(tb))
+                lt_cases, eq_prefix = [], []
+                for i in range(n):
+                    lt_cases.append(z3.And(eq_prefix + [ta[i] < tb[i]]))
+                    eq_prefix = eq_prefix + [ta[i] == tb[i]]
+                all_eq = z3.And(eq_prefix) if eq_prefix else z3.BoolVal(True)
+                lt = z3.Or(lt_cases + ([all_eq] if len(ta) < len(tb) else []))
+                eq = z3.And(all_eq, z3.BoolVal(len(ta) == len(tb)))
+                res = {"Lt": lt, "LtE": z3.Or(lt, eq), "Gt": z3.Not(z3.Or(lt, eq)), "GtE": z3.Not(lt)}[name]
+                return simp(res)
+            if sa.kind != sb.kind:
+                raise PyExc(ExcVal("TypeError", ("'<' not supported between str and bytes",)))
         raise Unsupported(f"compare {name} on {type(a).__name__}, {type(b).__name__}")
 
     def identical(self, a, b, ctx):
@@ -1365,6 +1400,25 @@ class Interp:
 
     # ---------------------------------------------------------------- attribute / item access
     def getattr(self, o, attr, ctx):
+        if isinstance(o, ExcVal) and attr in ("errno", "strerror", "args", "filename"):
+            # an OSError raised by the environment carries an error number the code cannot know in advance: any value
+            if attr == "args":
+                return tuple(o.args)
+            if not exc_isinstance(o.cls, "OSError"):
+                raise PyExc(ExcVal("AttributeError", (attr,)))
+            cache = getattr(o, "_attrs", None)
+            if cache is None:
+                cache = {}
+                o._attrs = cache
+            if attr not in cache:
+                if attr == "errno":
+                    v = z3.Int(fresh_name("errno"))
+                    ctx.fact(z3.And(v >= 1, v <= 200))
+                    ctx.used_models.add("OSError.errno of an environment failure: any error number")
+                    cache[attr] = v
+                else:
+                    cache[attr] = "error text"
+            return cache[attr]
         if isinstance(o, Obj):
             if attr in o.attrs:
                 return o.attrs[attr]
